@@ -5,6 +5,8 @@ V = os.path.dirname(os.path.dirname(os.path.abspath(__file__)))
 props = [json.loads(l) for l in open(os.path.join(V, 'properties.jsonl'))]
 TRUST = 'Trusts rustc nightly MIR/const-eval for the ska crate (same source and cfg as the stable build) and the analyses in sa/.'
 CLAIMS = {
+ 'C08': ('other', 'Structural necessary conditions of delete on every path: the names-file reader accepts a one-name line; both refusals of delete_samples diverge and dominate the replacement of the table, and generic_modes::delete reaches save only through delete_samples (refused => file untouched); update_counts(false) on every path from the column removal to return; a name is dropped iff its column index is recorded and a column is skipped iff its index equals the next recorded one. Order preservation of ndarray::push_column is trusted.',
+         'static analysis: MIR dominance / must-pass-through / decision-edge rules'),
  'C09': ('other', 'Structural necessary conditions decided on every path: the deserialiser rejects a stored width != IntT::n_bits() before any Ok return; the u64/u128 branches of all ten dispatching arms of main are call-for-call siblings with provenance-identical arguments and diverge when both widths fail; Build/Cov pick u64 iff k<=31 and all four k validators accept exactly odd 5..=63. Round-trip fidelity of CBOR/snappy is library behaviour and is not decided.',
          'static analysis: MIR dominance/path rules, sibling-region comparison, predicate evaluation over all k'),
  'C10': ('other', 'Decides the history-independence clause that is visible in code shape: the serialised derived field variant_count is recounted (in the mode the decision needs) before every decision that reads it; who-may-read tables for the non-content fields variant_count/ska_version/k_bits; recount after column deletion. Equality with a plain-table model over all operation histories is not enumerated.',
